@@ -14,16 +14,11 @@ Proof.
 Qed.
 Print Assumptions C02_infeas_test_sound_user.
 
-Theorem C02_driver_infeasible_sound_partial :
+Theorem C02_driver_infeasible_sound :
   forall M P ns float_solve basis_status ebasis max_iter a,
     let r := exact_solver M P ns float_solve basis_status ebasis max_iter a in
-    r_exit r <> ExitLadderExhausted -> r_rval r = false -> r_status r = StInfeasible ->
+    r_rval r = false -> r_status r = StInfeasible ->
     exists y, r_y r = Some y /\ infeas_test M P y = true.
-Proof. exact driver_infeasible_sound_partial. Qed.
-Print Assumptions C02_driver_infeasible_sound_partial.
+Proof. exact driver_infeasible_sound. Qed.
+Print Assumptions C02_driver_infeasible_sound.
 
-Theorem C02_driver_infeasible_refuted :
-  exists fs bs, let r := exact_solver 1 P0 0 fs bs None 12 PrimalS in
-    r_rval r = false /\ r_status r = StInfeasible /\ r_y r = None /\ feasible inf_none P0 (fun _ => 0).
-Proof. exact driver_infeasible_refuted. Qed.
-Print Assumptions C02_driver_infeasible_refuted.
